@@ -934,6 +934,8 @@ def check_C12(ctx):
         ctx.cov["rule"] = rep["rule"]
         ctx.cov["samples"] += rep.get("samples", [])
         ctx.cov["traces_validated_against_impl"] = rep["evaluations"]
+        for v in rep["violations"][:3]:
+            ctx.violation(v.get("kind", "race"), v)
     ctx.assumptions += [
         "partial: the theorem covers a lockset / happens-before discipline over SYNTACTIC accesses to Server fields (regenerated table) with hand-fixed thread classes and edges (Races.v), the WaitGroup protocol of the interleaving model (Shutdown.v) and 'no package state is written'; the Go memory model, aliasing through values reachable from handler arguments, and interleavings are not modelled",
         "the race detector only sees the interleavings that happened in this run",
